@@ -228,11 +228,13 @@ def set_len(rep, f, c, rule):
 VALIDATORS = {'utf_8::utf8_valid_up_to': 'utf8', 'ascii::ascii_valid_up_to': 'ascii', 'ascii::iso_2022_jp_ascii_valid_up_to': 'iso2022jp'}
 
 
-def unchecked_str(rep, f, c, rule, check_class=False):
+def unchecked_str(rep, f, c, rule, check_class=False, only=None):
     """str::from_utf8_unchecked(x): dominated by validator(x) == len(x) (or >=).  With check_class (C11) the validator must
     also be the one of the encoding's class and the site must be limited to potentially borrowable encodings."""
     n = 0
     for name, b in sorted(f.bodies.items()):
+        if only is not None and not only(name):
+            continue
         sites = [(bi, t) for bi, t in b.calls() if b.callee(t) == 'core::str::from_utf8_unchecked']
         for k_, (sbi, st) in enumerate(sites):
             n += 1
@@ -279,4 +281,4 @@ def unchecked_str(rep, f, c, rule, check_class=False):
                    'a borrow is returned under the wrong validator for the encoding class (UTF-8 -> utf8_valid_up_to, ISO-2022-JP -> '
                    'iso_2022_jp_ascii_valid_up_to, other potentially borrowable -> ascii_valid_up_to, never otherwise): ' + why,
                    at, {'validators': sorted(v for _, v in vals)}, c)
-    rep.floor(rule, 'str::from_utf8_unchecked sites', n, 4 if c != 'noalloc' else 0, c)
+    rep.floor(rule, 'str::from_utf8_unchecked sites', n, (3 if only else 4) if c != 'noalloc' else 0, c)
